@@ -2,7 +2,9 @@
 package recovery
 
 import (
+	stderrors "errors"
 	"fmt"
+	"io/fs"
 	"math"
 	"os"
 	"strings"
@@ -147,6 +149,11 @@ func (dr *DatabaseRecovery) loadWithRetry(primaryPath, personalPath string) (*da
 func (dr *DatabaseRecovery) shouldRetry(err error) bool {
 	// Don't retry for file not found or permission errors
 	if os.IsNotExist(err) || os.IsPermission(err) {
+		return false
+	}
+	// The loader wraps the file-system error in an application error, which
+	// os.IsNotExist does not look through; errors.Is follows the chain.
+	if stderrors.Is(err, fs.ErrNotExist) || stderrors.Is(err, fs.ErrPermission) {
 		return false
 	}
 
